@@ -21,6 +21,10 @@ struct Case {
     wlen: usize,
     ids: Vec<usize>,
     rows: Rows,
+    /// `klx` only: rayon pool size the call runs in (0 = the worker's own 2-thread pool)
+    threads: usize,
+    /// `klx` only: the same `KernighanLin` value is first used on another input
+    reuse: bool,
 }
 
 fn opt(x: Option<usize>) -> String {
@@ -31,8 +35,14 @@ fn opt(x: Option<usize>) -> String {
 }
 
 fn format_op(c: &Case) -> String {
+    let head = if c.threads == 0 && !c.reuse {
+        "kl".to_string()
+    } else {
+        format!("klx {} {}", c.threads, u8::from(c.reuse))
+    };
     let mut s = format!(
-        "kl {} {} {} {} {}",
+        "{} {} {} {} {} {}",
+        head,
         opt(c.mp),
         opt(c.mf),
         c.mb,
@@ -62,9 +72,18 @@ fn parse_opt(t: &str) -> Option<Option<usize>> {
 
 fn parse_op(op: &str) -> Option<Case> {
     let mut it = op.split_whitespace();
-    if it.next()? != "kl" {
-        return None;
-    }
+    let (threads, reuse) = match it.next()? {
+        "kl" => (0, false),
+        "klx" => {
+            let t: usize = it.next()?.parse().ok()?;
+            let r: u8 = it.next()?.parse().ok()?;
+            if t > 64 || r > 1 {
+                return None;
+            }
+            (t, r == 1)
+        }
+        _ => return None,
+    };
     let mp = parse_opt(it.next()?)?;
     let mf = parse_opt(it.next()?)?;
     let mb: usize = it.next()?.parse().ok()?;
@@ -94,7 +113,7 @@ fn parse_op(op: &str) -> Option<Case> {
     if it.next().is_some() || wlen > 1 << 20 {
         return None;
     }
-    Some(Case { mp, mf, mb, wlen, ids, rows })
+    Some(Case { mp, mf, mb, wlen, ids, rows, threads, reuse })
 }
 
 // ------------------------------------------------------------------ graphs
@@ -316,7 +335,7 @@ pub fn generate(ctx: &mut Ctx) {
                 let ids: Vec<usize> = (0..n).map(|i| (col >> i & 1) as usize).collect();
                 for &(mp, mf) in &limits[..if reduced { 1 } else { 6 }] {
                     for mb in 0..if reduced { 2 } else { 3 } {
-                        let c = Case { mp, mf, mb, wlen: n, ids: ids.clone(), rows: rows.clone() };
+                        let c = Case { mp, mf, mb, wlen: n, ids: ids.clone(), rows: rows.clone(), threads: 0, reuse: false };
                         ctx.count(&format!("exhaustive_n{}", n));
                         run_op(ctx, &format_op(&c));
                     }
@@ -336,12 +355,12 @@ pub fn generate(ctx: &mut Ctx) {
         let n = rows.len();
         let (cshape, mut ids) = random_colouring(&mut ctx.rng, n);
         let (mp, mf, mb) = random_limits(&mut ctx.rng, n);
-        let mut c = Case { mp, mf, mb, wlen: n, ids: vec![], rows };
+        let mut c = Case { mp, mf, mb, wlen: n, ids: vec![], rows, threads: 0, reuse: false };
         let mut cshape = cshape;
         if ctx.rng.chance(1, 6) {
             // locally optimal input: what an unlimited run returns
             let (out, _) = run_impl(&Case { mp: None, mf: None, mb: 1, ids: ids.clone(), ..c.clone() });
-            if let Caught::Ok((p, _, _)) = out {
+            if let Caught::Ok((p, _, _, _)) = out {
                 ids = p;
                 cshape = "fixpoint";
             }
@@ -447,8 +466,232 @@ pub fn generate(ctx: &mut Ctx) {
             }
         };
         ctx.count(&format!("malformed_{}", name));
-        run_op(ctx, &format_op(&Case { mp, mf, mb, wlen, ids, rows }));
+        run_op(ctx, &format_op(&Case { mp, mf, mb, wlen, ids, rows, threads: 0, reuse: false }));
     }
+
+    generate_large(ctx);
+}
+
+// ------------------------------------------------------------------ large / corner stream
+
+/// Sparse symmetric graph on exactly `n` vertices.  kind 0: grid numbered row by row (the
+/// `n - r*c` left-over vertices continue the last row as a path); kind 1: ring plus random
+/// chords, every degree <= 4.
+fn large_graph(rng: &mut Rng, n: usize, kind: usize, wmode: usize) -> Rows {
+    let mut e = vec![];
+    if kind == 0 {
+        let r = (n as f64).sqrt() as usize;
+        let c = n / r;
+        e = grid_edges(r, c, rng, wmode);
+        for v in r * c..n {
+            e.push((v - 1, v, weight(rng, wmode)));
+        }
+    } else {
+        let mut deg = vec![2usize; n];
+        for v in 0..n {
+            e.push((v, (v + 1) % n, weight(rng, wmode)));
+        }
+        for _ in 0..n {
+            let (a, b) = (rng.usize(n), rng.usize(n));
+            if a != b && deg[a] < 4 && deg[b] < 4 {
+                deg[a] += 1;
+                deg[b] += 1;
+                e.push((a, b, weight(rng, wmode)));
+            }
+        }
+    }
+    from_edges(n, &e)
+}
+
+fn large_colouring(rng: &mut Rng, n: usize, kind: usize) -> (&'static str, Vec<usize>) {
+    match kind % 4 {
+        0 => {
+            let mut v: Vec<usize> = (0..n).map(|i| usize::from(i >= n / 2)).collect();
+            rng.shuffle(&mut v);
+            ("balanced_random", v)
+        }
+        // block-aligned: labels constant on blocks of 64 consecutive vertices
+        1 => ("balanced_blocks64", (0..n).map(|i| (i / 64) % 2).collect()),
+        2 => ("unbalanced_contiguous", (0..n).map(|i| usize::from(i >= n / 5)).collect()),
+        _ => {
+            let mut v: Vec<usize> = (0..n).map(|i| usize::from(i >= n / 4)).collect();
+            rng.shuffle(&mut v);
+            ("unbalanced_random", v)
+        }
+    }
+}
+
+fn set_labels(ids: &mut [usize], k: usize) {
+    let (a, b) = [(3, 7), (7, 3), (5, 1_000_000), (1, 0)][k % 4];
+    for x in ids.iter_mut() {
+        *x = if *x == 0 { a } else { b };
+    }
+}
+
+/// Size- and corner-gated paths: the largest sizes a quadratic algorithm allows (every flip
+/// recomputes all gains and the whole edge cut), not multiples of powers of two, sparse graphs,
+/// several passes, rayon pools of 1/2/3/16 threads, object reuse, parameter corners.
+fn generate_large(ctx: &mut Ctx) {
+    // (n, max_passes, graph kind, colouring kind, threads, reuse); sizes up to 420 are compared
+    // with the Lean model exactly, the larger ones are oracle-only (the list-based model is
+    // cubic there).  Colouring kinds 0 and 3 (random) need many passes, 1 and 2 are block-aligned.
+    type L = (usize, Option<usize>, usize, usize, usize, bool);
+    let quick: &[L] = &[
+        (131, None, 1, 0, 3, true),
+        (263, None, 0, 3, 1, true),
+        (311, None, 1, 1, 16, true),
+        (419, None, 0, 0, 2, true),
+        (1013, None, 1, 3, 3, true),
+        (1531, None, 0, 0, 16, false),
+        (2053, None, 1, 2, 2, false),
+        (4099, None, 0, 0, 1, false),
+        (8197, Some(3), 1, 3, 3, false),
+        (16421, Some(1), 0, 1, 2, false),
+    ];
+    let thorough: &[L] = &[
+        (131, None, 0, 0, 1, true),
+        (263, None, 1, 0, 2, true),
+        (311, None, 0, 3, 3, true),
+        (389, None, 1, 3, 16, true),
+        (419, None, 1, 0, 1, true),
+        (419, None, 0, 1, 3, true),
+        (1013, None, 0, 0, 2, true),
+        (1531, None, 1, 0, 3, true),
+        (2053, None, 0, 3, 16, false),
+        (3001, None, 1, 0, 1, false),
+        (4099, None, 0, 0, 2, false),
+        (4099, None, 1, 3, 3, true),
+        (8197, None, 0, 0, 16, false),
+        (8197, Some(3), 1, 2, 1, false),
+        (16421, Some(3), 0, 0, 2, false),
+        (20001, Some(2), 1, 3, 3, false),
+        (65537 + 11, Some(1), 0, 2, 16, false),
+    ];
+    let table = if ctx.quick() { quick } else { thorough };
+    for (k, &(n, mp, gk, ck, threads, reuse)) in table.iter().enumerate() {
+        let rows = large_graph(&mut ctx.rng, n, gk, if k % 3 == 0 { 1 } else { 0 });
+        let (cname, mut ids) = large_colouring(&mut ctx.rng, n, ck);
+        set_labels(&mut ids, k);
+        let c = Case { mp, mf: None, mb: 1 + k % 3, wlen: n, ids, rows, threads, reuse };
+        ctx.count(&format!(
+            "large:{}",
+            match n {
+                0..=420 => "n<=420 (model compared)",
+                421..=2100 => "n 421..2100",
+                2101..=4096 => "n 2101..4096",
+                4097..=8192 => "n 4097..8192",
+                8193..=16384 => "n 8193..16384",
+                16385..=65536 => "n 16385..65536",
+                _ => "n>65536",
+            }
+        ));
+        ctx.count(&format!("large_graph:{}", if gk == 0 { "grid" } else { "ring_chords_deg4" }));
+        ctx.count(&format!("large_colouring:{}", cname));
+        ctx.count(&format!("large_threads:{}", threads));
+        if mp.is_none() && n <= 2100 {
+            // how many passes really swap: compare the outputs under max_passes 1, 2, 3
+            let probe = |m: usize| match run_impl(&Case { mp: Some(m), threads: 0, reuse: false, ..c.clone() }).0 {
+                Caught::Ok((p, _, _, _)) => Some(p),
+                _ => None,
+            };
+            let (p1, p2, p3) = (probe(1), probe(2), probe(3));
+            ctx.count(if p2 != p3 {
+                "large_passes:third pass swaps"
+            } else if p1 != p2 {
+                "large_passes:second pass swaps"
+            } else {
+                "large_passes:one pass"
+            });
+        }
+        let t0 = std::time::Instant::now();
+        run_op(ctx, &format_op(&c));
+        if std::env::var_os("C15_TIMES").is_some() {
+            eprintln!("large n={} mp={:?} {} threads={} reuse={}: {:?}", n, mp, cname, threads, reuse, t0.elapsed());
+        }
+    }
+
+    // corners -------------------------------------------------------------
+    let base = |rng: &mut Rng, maxn: usize| {
+        let (_, rows) = random_graph(rng, maxn);
+        let n = rows.len();
+        let (_, mut ids) = random_colouring(rng, n);
+        set_labels(&mut ids, rng.usize(4));
+        Case { mp: None, mf: None, mb: 1 + rng.usize(3), wlen: n, ids, rows, threads: 0, reuse: false }
+    };
+    for i in 0..ctx.budget(60, 600) {
+        // limits at the top of the type's range
+        let mut c = base(&mut ctx.rng, 12);
+        match i % 3 {
+            0 => c.mp = Some(usize::MAX),
+            1 => c.mf = Some(usize::MAX),
+            _ => {
+                c.mp = Some(usize::MAX);
+                c.mf = Some(usize::MAX - 1);
+            }
+        }
+        ctx.count("corner:limits_usize_max");
+        run_op(ctx, &format_op(&c));
+    }
+    for _ in 0..ctx.budget(60, 600) {
+        // max_flips_per_pass around n/2 (the other bound of the pass loop)
+        let mut c = base(&mut ctx.rng, 12);
+        let h = c.ids.len() / 2;
+        c.mf = Some((h + ctx.rng.usize(3)).saturating_sub(1));
+        ctx.count("corner:max_flips_around_half");
+        run_op(ctx, &format_op(&c));
+    }
+    for _ in 0..ctx.budget(60, 600) {
+        // weights 2^40..2^44: gains and cuts stay far below 2^53 (n <= 8), sums still exact
+        let mut c = base(&mut ctx.rng, 8);
+        for v in 0..c.rows.len() {
+            for k in 0..c.rows[v].len() {
+                let j = c.rows[v][k].0;
+                if v < j {
+                    let w = (1i64 << 40) + ctx.rng.range(0, (1i64 << 44) - (1i64 << 40));
+                    c.rows[v][k].1 = w;
+                    let m = c.rows[j].iter().position(|e| e.0 == v).unwrap();
+                    c.rows[j][m].1 = w;
+                }
+            }
+        }
+        ctx.count("corner:weights_2^40..2^44");
+        run_op(ctx, &format_op(&c));
+    }
+    for i in 0..ctx.budget(40, 400) {
+        // exactly two and exactly three vertices, weighted, every label pair
+        let n = 2 + i % 2;
+        let mut e = vec![(0, 1, ctx.rng.range(1, 9))];
+        if n == 3 {
+            if ctx.rng.chance(1, 2) {
+                e.push((1, 2, ctx.rng.range(1, 9)));
+            }
+            if ctx.rng.chance(1, 2) {
+                e.push((0, 2, ctx.rng.range(1, 9)));
+            }
+        }
+        if ctx.rng.chance(1, 5) {
+            e.clear();
+        }
+        let (_, mut ids) = random_colouring(&mut ctx.rng, n);
+        set_labels(&mut ids, i);
+        let (mp, mf, mb) = random_limits(&mut ctx.rng, n);
+        ctx.count(&format!("corner:n={}", n));
+        run_op(ctx, &format_op(&Case { mp, mf, mb, wlen: n, ids, rows: from_edges(n, &e), threads: 0, reuse: false }));
+    }
+    // reuse of the same value on small and medium inputs, several pool sizes
+    for i in 0..ctx.budget(150, 3000) {
+        let mut c = base(&mut ctx.rng, if i % 10 == 0 { 60 } else { 14 });
+        let (mp, mf, mb) = random_limits(&mut ctx.rng, c.ids.len());
+        c.mp = mp;
+        c.mf = mf;
+        c.mb = mb;
+        c.reuse = true;
+        c.threads = [0, 1, 3][i % 3];
+        run_op(ctx, &format_op(&c));
+    }
+    ctx.notes.push(
+        "large/corner stream: KernighanLin is quadratic per pass (all gains and the whole edge cut are recomputed at every flip), so the largest sizes are 16421 (quick, 1 pass) and 65548 (thorough, 1 pass of n/5 flips); 4099 (quick) / 8197 (thorough) run with unlimited passes; n <= 420 is compared with the Lean model exactly, above that the model line is `skip large-n (oracle only)`".into(),
+    );
 }
 
 // ------------------------------------------------------------------ running
@@ -500,10 +743,11 @@ fn on_worker(secs: u64, f: impl FnOnce() -> Ran + Send + 'static) -> Caught<Ran>
     }
 }
 
-type Ran = (Vec<usize>, f64, f64);
+/// ids after, edge_cut before, edge_cut after (as the view reports them), and for `reuse` cases
+/// the ids a *reused* `KernighanLin` value returns for the same input
+type Ran = (Vec<usize>, f64, f64, Option<Vec<usize>>);
 
-/// Run the real `KernighanLin::partition`; returns (ids after, edge_cut before, edge_cut after)
-/// and whether the matrix could be built.
+/// Run the real `KernighanLin::partition`; also returns whether the matrix could be built.
 fn run_impl(c: &Case) -> (Caught<Ran>, bool) {
     let nrows = c.rows.len();
     let ncols = c
@@ -529,33 +773,63 @@ fn run_impl(c: &Case) -> (Caught<Ran>, bool) {
     let ids0 = c.ids.clone();
     let weights = vec![1.0f64; c.wlen];
     let (mp, mf, mb) = (c.mp, c.mf, c.mb);
-    let r = on_worker(60, move || {
-        let mut p = ids0.clone();
-        coupe::KernighanLin {
-            max_passes: mp,
-            max_flips_per_pass: mf,
-            max_imbalance_per_flip: None,
-            max_bad_move_in_a_row: mb,
+    let (threads, reuse) = (c.threads, c.reuse);
+    let r = on_worker(60 + c.ids.len() as u64 / 40, move || {
+        let body = move || {
+            let make = || coupe::KernighanLin {
+                max_passes: mp,
+                max_flips_per_pass: mf,
+                max_imbalance_per_flip: None,
+                max_bad_move_in_a_row: mb,
+            };
+            // fresh value, fresh buffer
+            let mut p = ids0.clone();
+            make().partition(&mut p, (mat.view(), &weights[..])).unwrap();
+            let reused = if reuse {
+                // the SAME value: first another input (the ids rotated by one place: same part
+                // sizes, another partition), then the input of the case
+                let mut alg = make();
+                let mut q = ids0.clone();
+                q.rotate_left(1);
+                alg.partition(&mut q, (mat.view(), &weights[..])).unwrap();
+                let mut p2 = ids0.clone();
+                alg.partition(&mut p2, (mat.view(), &weights[..])).unwrap();
+                Some(p2)
+            } else {
+                None
+            };
+            let before = mat.view().edge_cut(&ids0);
+            let after = mat.view().edge_cut(&p);
+            (p, before, after, reused)
+        };
+        if threads > 0 {
+            with_pool(threads, body)
+        } else {
+            body()
         }
-        .partition(&mut p, (mat.view(), &weights[..]))
-        .unwrap();
-        let before = mat.view().edge_cut(&ids0);
-        let after = mat.view().edge_cut(&p);
-        (p, before, after)
     });
     (r, true)
 }
 
-/// Oracle's own cut: dense matrix, every unordered pair {i, j} with different labels counted
-/// once with the weight stored at (max, min) – for a symmetric matrix the textbook edge cut.
-fn brute_cut(n: usize, dense: &[i64], ids: &[usize]) -> i64 {
+/// Oracle's own cut, O(m): every stored entry (v, j) of the chosen triangle whose end points
+/// carry different labels – for a symmetric matrix either triangle is the textbook edge cut
+/// (every undirected edge once).
+fn tri_cut(rows: &Rows, ids: &[usize], lower: bool) -> i64 {
     let mut s = 0;
-    for i in 0..n {
-        for j in 0..i {
-            if ids[i] != ids[j] {
-                s += dense[i * n + j];
+    for (v, r) in rows.iter().enumerate() {
+        for &(j, w) in r {
+            if (if lower { j < v } else { j > v }) && ids[v] != ids[j] {
+                s += w;
             }
         }
+    }
+    s
+}
+
+fn short(ids: &[usize]) -> String {
+    let mut s = format!("{:?}", &ids[..ids.len().min(40)]);
+    if ids.len() > 40 {
+        s.push_str(&format!("… ({} ids)", ids.len()));
     }
     s
 }
@@ -580,21 +854,19 @@ pub fn run_op(ctx: &mut Ctx, op: &str) {
     labels.dedup();
     let two_way = labels.len() == 2;
     let well_formed = c.rows.len() == n && c.rows.iter().all(|r| r.iter().all(|&(j, _)| j < n));
-    let mut dense = vec![0i64; n * n];
     let mut symmetric = well_formed;
     let mut positive = true;
     let mut nedges = 0;
     if well_formed {
         for (v, r) in c.rows.iter().enumerate() {
             for &(j, w) in r {
-                dense[v * n + j] = w;
                 positive &= w > 0 && j != v;
                 nedges += 1;
-            }
-        }
-        for i in 0..n {
-            for j in 0..n {
-                symmetric &= dense[i * n + j] == dense[j * n + i];
+                // rows are strictly increasing (parse_op), so the mirror entry is found by bisection
+                symmetric &= match c.rows[j].binary_search_by_key(&v, |e| e.0) {
+                    Ok(k) => c.rows[j][k].1 == w,
+                    Err(_) => false,
+                };
             }
         }
     }
@@ -604,7 +876,7 @@ pub fn run_op(ctx: &mut Ctx, op: &str) {
 
     let mut verdict: Option<(&str, String)> = None;
     let out = match res {
-        Caught::Ok((p, before, after)) => {
+        Caught::Ok((p, before, after, reused)) => {
             // oracle (on every input the implementation accepts, in scope or not)
             let mut a = c.ids.clone();
             let mut b = p.clone();
@@ -615,14 +887,14 @@ pub fn run_op(ctx: &mut Ctx, op: &str) {
             } else if a != b {
                 verdict = Some((
                     "kl-part-sizes",
-                    format!("label multiset changed: {:?} -> {:?}", c.ids, p),
+                    format!("label multiset changed: {} -> {}", short(&c.ids), short(&p)),
                 ));
             } else if well_formed {
-                let (cb, ca) = (brute_cut(n, &dense, &c.ids), brute_cut(n, &dense, &p));
+                let (cb, ca) = (tri_cut(&c.rows, &c.ids, true), tri_cut(&c.rows, &p, true));
                 if ca > cb {
                     verdict = Some((
                         "kl-cut-increased",
-                        format!("edge cut {} -> {} ({:?} -> {:?})", cb, ca, c.ids, p),
+                        format!("edge cut {} -> {} ({} -> {})", cb, ca, short(&c.ids), short(&p)),
                     ));
                 } else if cb as f64 != before || ca as f64 != after {
                     verdict = Some((
@@ -632,14 +904,7 @@ pub fn run_op(ctx: &mut Ctx, op: &str) {
                 }
                 if symmetric {
                     // each undirected edge once, from the other triangle as well
-                    let mut up = 0;
-                    for i in 0..n {
-                        for j in i + 1..n {
-                            if p[i] != p[j] {
-                                up += dense[i * n + j];
-                            }
-                        }
-                    }
+                    let up = tri_cut(&c.rows, &p, false);
                     if up != ca && verdict.is_none() {
                         verdict = Some(("kl-oracle-internal", format!("{} vs {}", up, ca)));
                     }
@@ -648,6 +913,19 @@ pub fn run_op(ctx: &mut Ctx, op: &str) {
                     ctx.count(if ca < cb { "moved_cut_lower" } else { "moved_cut_equal" });
                 } else {
                     ctx.count("unchanged");
+                }
+            }
+            if let Some(p2) = &reused {
+                ctx.count("reuse");
+                if *p2 != p && verdict.is_none() {
+                    verdict = Some((
+                        "kl-reuse-differs",
+                        format!(
+                            "the same KernighanLin value used a second time returns {} instead of {}",
+                            short(p2),
+                            short(&p)
+                        ),
+                    ));
                 }
             }
             format!("ok {} {} | {}", before as i64, after as i64, join(&p))
@@ -660,7 +938,7 @@ pub fn run_op(ctx: &mut Ctx, op: &str) {
             format!("panic {}", m)
         }
         Caught::Hang => {
-            verdict = Some(("hang", "watchdog (60 s)".into()));
+            verdict = Some(("hang", format!("watchdog ({} s)", 60 + n / 40)));
             "hang".into()
         }
     };
